@@ -217,7 +217,7 @@ def main():
             if fact_matters(pid, name):
                 broken.append({"kind": "tie-extract", "what": f"extract_facts could not find the fact {name} this property depends on: {why}"})
             else:
-                notes.append(f"fact {name} could not be extracted ({why}); this property does not depend on it, previous definition kept")
+                notes.append(f"fact {name} could not be read from the source ({why}); it is not one this property is about: the model keeps the previous definition and the correspondence suite is the tie for it in this run")
     except extract_facts.ExtractError as exc:
         broken.append({"kind": "tie-extract", "what": f"extract_facts could not find: {exc}"})
     driver_ok = True
@@ -357,8 +357,15 @@ def main():
 
 def fact_matters(pid, fact):
     """does property pid depend on the extracted fact? (through the structures its suites exercise)"""
-    from props import FACT_EXTRA_PROPS, FACT_USERS, GUARD_INDEPENDENT
+    from props import FACT_EXTRA_PROPS, FACT_OWNERS, FACT_USERS, GUARD_INDEPENDENT
 
+    owners = None
+    for prefix in sorted(FACT_OWNERS, key=len, reverse=True):
+        if fact.startswith(prefix):
+            owners = FACT_OWNERS[prefix]
+            break
+    if owners is not None:
+        return pid in owners
     if fact.endswith("Cmp") and pid in GUARD_INDEPENDENT:
         return False
     for prefix, pids in FACT_EXTRA_PROPS.items():
